@@ -6,6 +6,8 @@ inside Coq (vm_compute) on generated cases and compared with what wpull's real
 FTP code does on the same cases (harness/impl/c17_impl.py: real Session /
 Commander / ControlStream / Reply / Command / Connection / asyncio.StreamReader
 over a scripted transport that delivers exactly the scripted segments)."""
+import json
+
 from harness.lib import common
 
 PROP = 'C17'
@@ -557,6 +559,8 @@ def _plan(case, res, nlogin, fallback):
 def property_on_impl(case, res):
     """returns None or a short reason"""
     k = case['kind']
+    if 'LoopGuard' in json.dumps(res):
+        return 'client-spins-at-eof'
     if k == 'reply':
         first = res['runs'][0]
         for run in res['runs'][1:]:
